@@ -1,5 +1,6 @@
 #!/usr/bin/env python3
-"""run each kept seed's own property check (quick) against a scratch worktree with the seed applied: <wid> <nworkers>"""
+"""Maintainer tool: run each kept seed's own property check (quick) against a scratch worktree with the seed applied (does not touch /repo):
+   tools_seed_par.py <wid> <nworkers> [id-or-suffix ...]      e.g.  tools_seed_par.py 0 4 -m -n"""
 import json, os, subprocess, sys, glob, tempfile, shutil
 wid, nw = int(sys.argv[1]), int(sys.argv[2])
 VERIF='/verif'
@@ -7,6 +8,9 @@ wt=f'/tmp/seedwt_{wid}'
 subprocess.run(['git','-C','/repo','worktree','remove','--force',wt],capture_output=True)
 subprocess.run(['git','-C','/repo','worktree','add','--detach',wt,'HEAD'],capture_output=True,check=True)
 seeds=sorted(d for d in glob.glob(VERIF+'/seeded/C*') if os.path.isdir(d))
+suffix=sys.argv[3:]
+if suffix:
+    seeds=[d for d in seeds if any(os.path.basename(d).endswith(x) or os.path.basename(d)==x for x in suffix)]
 try:
     for i,d in enumerate(seeds):
         if i%nw!=wid: continue
